@@ -157,7 +157,7 @@ def twin_derive(spec, t):
     """#[derive(Debug)] twin for configs without educe parameters"""
     t2 = t.clone()
     t2.name = 'Ty'
-    s = render_type(t2).replace('#[derive(Educe)]\n#[educe(Debug)]\n', '#[derive(Debug)]\n')
+    s = render_type(t2, Spelling()).replace('#[derive(Educe)]\n#[educe(Debug)]\n', '#[derive(Debug)]\n')
     return 'pub mod twin {\n    use super::*;\n' + ''.join('    ' + l + '\n' for l in (s + any_fn(t2)).splitlines()) + '}\n'
 
 
@@ -314,6 +314,10 @@ def gen_specs(tier, seed):
         specs.append(Spec('struct', False, [dict(kind='tuple', vname=None, nf=None, fields=['b', 'r', 'p'])], True))
         specs.append(Spec('struct', False, [dict(kind='named', vname=None, nf=None, fields=['b', 'm', 'l'])]))
         specs.append(Spec('struct', 'Rn', [dict(kind='tuple', vname=None, nf=None, fields=['r', 'b', 'i'])], True))
+        # degenerate shapes: zero-field structs and variants (a name must be shown), flipped named_field on them
+        specs.append(Spec('struct', None, [dict(kind='tuple', vname=None, nf=None, fields=[])]))
+        specs.append(Spec('struct', 'Rn', [dict(kind='named', vname=None, nf=None, fields=[])], False))
+        specs.append(Spec('enum', True, [dict(kind='tuple', vname=None, nf=None, fields=[]), dict(kind='named', vname='Rv', nf=None, fields=[]), dict(kind='named', vname=None, nf=False, fields=['i'])]))
         # plain ones (twin #[derive(Debug)])
         specs.append(Spec('struct', None, [dict(kind='named', vname=None, nf=None, fields=['p', 'p'])]))
         specs.append(Spec('struct', None, [dict(kind='tuple', vname=None, nf=None, fields=['p', 'p', 'p'])]))
